@@ -23,6 +23,7 @@ import (
 const modPrefix = "github.com/buzzfeed/sso/"
 
 type Engine struct {
+	unbound []string // contracts in /repo whose function is gone
 	// helpers that could not be inlined (outside the modelled subset): their calls are abstracted to unknown calls
 	inlineFailed map[*ssa.Function]string
 	repo    string
@@ -647,7 +648,13 @@ func (e *Engine) bind() {
 		}
 		fn := e.lookupFn(pkg, rt, c.RecvPtr, fname)
 		if fn == nil {
-			e.db.Errors = append(e.db.Errors, fmt.Sprintf("%s:%d: no function %s %s.%s", c.File, c.Line, pkg, rt, fname))
+			if c.Lib {
+				e.db.Errors = append(e.db.Errors, fmt.Sprintf("%s:%d: no function %s %s.%s", c.File, c.Line, pkg, rt, fname))
+				continue
+			}
+			// a contract in /repo whose function no longer exists: not an error of the specification — the
+			// obligations it used to give rise to are reported as failed by absence (see cmdCheck)
+			e.unbound = append(e.unbound, fmt.Sprintf("%s:%d: %s %s.%s", c.File, c.Line, pkg, rt, fname))
 			continue
 		}
 		np := fn.Signature.Params().Len()
